@@ -496,6 +496,7 @@ _PROP = {"yoc": "year_of_century", "zdec": "year_of_decade", "month": "month_of_
 def run_truncated(ctx, part):
     from metomi.isodatetime.parsers import TimePointParser
     parser = TimePointParser(allow_truncated=True, default_to_unknown_time_zone=True)
+    parser_bo = TimePointParser(allow_truncated=True, default_to_unknown_time_zone=True, allow_only_basic=True)
     tdf = mtext.truncated_date_forms()
     ttf = mtext.truncated_time_forms()
     tforms = mtext.time_forms()
@@ -567,6 +568,20 @@ def run_truncated(ctx, part):
                                         {"kind": "truncated", "text": text, "dform": dname, "tform": tname, "zform": zname},
                                         {"dform": dname, "tform": tname, "zform": zname, "truncated": True,
                                          "kinds_mixed": not mtext.compatible(dkind, tkind or "both", zkind)})
+                        # a parser restricted to basic notation refuses every form that exists only in extended notation
+                        if "extended" in (dkind, tkind, zkind):
+                            ctx.transitions += 1
+                            try:
+                                got = parser_bo.parse(text)
+                                ctx.violation("basic_only_refuses_extended", {"dform": dname, "tform": tname, "zform": zname,
+                                                                              "truncated": True},
+                                              {"kind": "truncated", "text": text, "dform": dname, "tform": tname, "zform": zname,
+                                               "basic_only": True}, "refused", impl.sstr(got))
+                            except ValueError:
+                                ctx.traces += 1
+                            except Exception as ex:
+                                ctx.violation("total", {"exc": type(ex).__name__, "truncated": True},
+                                              {"kind": "truncated", "text": text, "basic_only": True}, "ValueError", repr(ex))
 
 
 def check_truncated(ctx, parser, text, want, zone, case, sig):
